@@ -70,6 +70,12 @@ class SimWriter:
     def writable(self):
         return True
 
+    def fileno(self):
+        return -1
+
+    def tell(self):
+        return len(self.raw) + len(self.buf)
+
     def _raw_write(self, data):
         f = self.fault
         self.fs.stats["raw_writes"] += 1
@@ -289,10 +295,145 @@ class _PathlibShim:
 SHIM = _PathlibShim()
 
 
+# --------------------------------------------------------------------------------------
+# other ways of reaching the file system from inference.preocf (legitimate refactorings):
+# the built-in open(), and the os / tempfile modules
+# --------------------------------------------------------------------------------------
+import builtins as _builtins
+
+
+def _is_sim_target(p):
+    return CURRENT is not None and isinstance(p, (str, SimPath, real_pathlib.PurePath)) and not str(p).startswith(("/proc", "/dev", "/sys", "/usr", "/venv", "/opt"))
+
+
+def sim_open(file, mode="r", *a, **kw):
+    if _is_sim_target(file):
+        return SimPath(str(file)).open(mode)
+    return _builtins.open(file, mode, *a, **kw)
+
+
+class _OsPathShim:
+    def __init__(self, real):
+        self._real = real
+
+    def exists(self, p):
+        return SimPath(str(p)).exists() if _is_sim_target(p) else self._real.exists(p)
+
+    def isfile(self, p):
+        return SimPath(str(p)).exists() if _is_sim_target(p) else self._real.isfile(p)
+
+    def isdir(self, p):
+        return False if _is_sim_target(p) else self._real.isdir(p)
+
+    def getsize(self, p):
+        return SimPath(str(p)).stat().st_size if _is_sim_target(p) else self._real.getsize(p)
+
+    def __getattr__(self, name):
+        return getattr(self._real, name)
+
+
+class _OsShim:
+    """What inference.preocf sees under the name ``os`` (only if it imports os at all)."""
+
+    def __init__(self, real):
+        self._real = real
+        self.path = _OsPathShim(real.path)
+
+    def replace(self, src, dst, **kw):
+        if _is_sim_target(src):
+            fsys = fs()
+            a, b = SimPath(str(src))._key(), SimPath(str(dst))._key()
+            if a not in fsys.files:
+                raise FileNotFoundError(errno.ENOENT, os.strerror(errno.ENOENT), a)
+            fsys.files[b] = fsys.files.pop(a)
+            s = seams.SIM
+            if s is not None:
+                s.trace("fs.replace", a, b)
+            return None
+        return self._real.replace(src, dst, **kw)
+
+    rename = replace
+
+    def remove(self, p, **kw):
+        if _is_sim_target(p):
+            return SimPath(str(p)).unlink()
+        return self._real.remove(p, **kw)
+
+    unlink = remove
+
+    def fsync(self, fd):
+        if CURRENT is not None:
+            return None
+        return self._real.fsync(fd)
+
+    def makedirs(self, p, *a, **kw):
+        if _is_sim_target(p):
+            return None
+        return self._real.makedirs(p, *a, **kw)
+
+    def open(self, *a, **kw):
+        if CURRENT is not None:
+            raise seams.HarnessError("os.open is not modelled by SimFS")
+        return self._real.open(*a, **kw)
+
+    def fdopen(self, *a, **kw):
+        if CURRENT is not None:
+            raise seams.HarnessError("os.fdopen is not modelled by SimFS")
+        return self._real.fdopen(*a, **kw)
+
+    def __getattr__(self, name):
+        return getattr(self._real, name)
+
+
+class _TempfileShim:
+    def __init__(self, real):
+        self._real = real
+        self._n = 0
+
+    def NamedTemporaryFile(self, mode="w+b", *a, dir=None, prefix="tmp", suffix="", delete=True, **kw):  # noqa: N802
+        if CURRENT is None:
+            return self._real.NamedTemporaryFile(mode, *a, dir=dir, prefix=prefix, suffix=suffix, delete=delete, **kw)
+        if delete:
+            raise seams.HarnessError("NamedTemporaryFile(delete=True) is not modelled by SimFS")
+        self._n += 1
+        name = "%s/%s%d%s" % (str(dir).rstrip("/") if dir else "tmp", prefix, self._n, suffix)
+        w = SimPath(name).open("wb" if "b" in mode else "w")
+        w.name = name
+        return w
+
+    def mkstemp(self, *a, **kw):
+        if CURRENT is not None:
+            raise seams.HarnessError("tempfile.mkstemp is not modelled by SimFS")
+        return self._real.mkstemp(*a, **kw)
+
+    def __getattr__(self, name):
+        return getattr(self._real, name)
+
+
 def install():
     import inference.preocf as P
 
     P.pathlib = SHIM
+    P.open = sim_open  # a module global shadows the built-in
+    if hasattr(P, "os"):
+        P.os = _OsShim(P.os)
+    if hasattr(P, "tempfile"):
+        P.tempfile = _TempfileShim(P.tempfile)
+    if hasattr(P, "Path"):  # `from pathlib import Path`
+        P.Path = _PathCallable()
+
+
+class _PathCallable:
+    """Stands in for a directly imported ``Path`` class."""
+
+    def __call__(self, *parts):
+        return SimPath(*parts) if CURRENT is not None else real_pathlib.Path(*parts)
+
+    def __instancecheck__(self, obj):
+        return isinstance(obj, (SimPath, real_pathlib.Path))
+
+    def __getattr__(self, name):
+        return getattr(real_pathlib.Path, name)
 
 
 def activate(bufsize=8192):
